@@ -35,17 +35,21 @@ CLAIMS = {
          "io.Writer law n < len(p) ==> err != nil assumed of the destination"),
  "C14": ("proof: zero-annotation safety sweep (index, slice bounds, nil dereference, type assertion, division, signed overflow, explicit panic unreachable) plus a decreasing variant for every annotated loop, for every function under contract in age, internal/stream and internal/format; scrypt work bounded by the C10 call-site obligation.",
          "library internals assumed panic-free and terminating; < 2^88 chunks per stream; functions not yet under contract (armor, bech32, parse.go, agessh, plugin, cmd) are not covered yet"),
+ "C16": ("proof for every message the plugin may send (one symbolic loop iteration against ReadStanza's contract stands for any message at any point): phase 1 of both state machines writes exactly add-recipient|add-identity <encoding>, grease-<hex>, wrap-file-key with the file key (resp. one recipient-stanza 0 <type> <args> <body> per stanza, in order), extension-labels, done - each exactly once (call-site execution counters); 'ok' is written for a recipient-stanza only after index 0 was validated; a second labels or file-key message is an error (counter invariant; empty file keys are rejected); 'error' is acknowledged then aborts; unknown commands get exactly one 'unsupported' and change nothing; zero stanzas / no file key are errors, the latter wrapping ErrIncorrectIdentity through the %w wrappers; ClientUI.handle answers every known command exactly once with the prescribed reply for every combination of nil and failing callbacks; every loop consumes input (termination relative to the plugin's stream).",
+         "the plugin process is a ghost stanza stream; process creation and pipes assumed (openClientConnection's body is mostly OS calls); UI callbacks assumed not to touch protocol state"),
+ "C17": ("proof: validPluginName iff every rune is in the 66-character allow-list; ParseRecipient/ParseIdentity/EncodeIdentity/EncodeRecipient and NewRecipient/NewIdentity/NewIdentityWithoutData return a name only if valid and start no process; execabs.Command is called (at most once per wrap/unwrap) with exactly 'age-plugin-'+name and only if the name has no path separator (when the test-only path override is empty); cmd/age constructs plugins only from the -r/-i/-j argument strings; native Unwrap/Parse functions do not reach execabs.Command.",
+         "execabs/PATH semantics are the OS's; testOnlyPluginPath is written only by tests (not checked)"),
+ "C18": ("proof: ParseIdentities, ParseRecipients and the CLI's parseIdentities/parseRecipientsFile return exactly keycount(lines read) keys (loop invariant len(result) == number of non-empty non-# lines so far, so no key line can be skipped; the CLI variant counts its documented warnings), abort at the first failing line with the 1-based line number n == lines scanned, fail on an empty result; the recipients-file error formats are pinned to constant strings whose only operands are the file name and the line number (no line content, no inner error).",
+         "bufio.Scanner line semantics assumed (linetext/keycount are ghost functions of the scanner); ParseX25519Identity's own error text may quote the HRP"),
  "C19": ("proof for EncryptedSSHIdentity.Unwrap: the passphrase callback is not called unless some stanza has the declared key type and tag (loop invariant over all stanzas), it is called at most once, never when a validated key is cached; i.decrypted changes only on the path on which the parsed key compared equal to the declared public key after exactly one prompt, and is never set to a typed nil.",
          "ssh key parsing and PublicKey.Equal are library code with assumed contracts; that a cached key is the right one rests on Equal"),
+ "C20": ("proof of frame obligations for Wrap/WrapWithLabels/Unwrap/unwrap/Recipient/String of X25519, scrypt, ssh-rsa and ssh-ed25519 recipients and identities: every store, copy, in-place append and callee effect targets memory allocated during the call (or the ghost counters named in the modifies clause), and no object or region that existed at entry changes (one quantified obligation per touched heap array, including same-value writes); no function of the library packages assigns a package-level variable outside init (SSA scan). Read-only sharing implies data-race freedom and schedule-independent results by the Go memory model (reduction argument, not mechanised).",
+         "interleavings are not explored; frames of library callees (curve25519, rsa, ssh, hkdf) are assumed by their contracts"),
 }
 
 NOT_YET = {
 
  "C15": "cmd/age and cmd/age-keygen contracts not built yet",
- "C16": "plugin client loop contracts not built yet",
- "C17": "plugin name / exec contracts not built yet",
- "C18": "key-file parser contracts not built yet",
- "C20": "frame obligations not built yet",
 }
 
 def main():
